@@ -30,12 +30,13 @@ def term_fields(t):
     return ('L', term_dt(t))
 
 
-def case_lines(triples, cfg, what, cid):
+def case_lines(triples, cfg, what, cid, sel_flags=None):
     out = [cfg_line(cfg)]
-    for s, p, o in triples:
+    for i, (s, p, o) in enumerate(triples):
         sk, sv = term_fields(s)
         ok, ov = term_fields(o)
-        out.append("T\t%s\t%s\t%s\t%s\t%s" % (sk, sv, p, ok, ov))
+        tag = "T" if sel_flags is None or sel_flags[i] else "TX"
+        out.append("%s\t%s\t%s\t%s\t%s\t%s" % (tag, sk, sv, p, ok, ov))
     out.append("RUN\t%s\t%s" % (what, cid))
     return out
 
